@@ -74,8 +74,23 @@ func mkEnv(k int) *Env {
 	if k%5 == 0 {
 		e.Err = errors.New("err")
 	}
-	if k%2 == 0 {
+	switch k % 8 {
+	case 0:
 		e.Any = e.I0
+	case 1:
+		e.Any = nil
+	case 2:
+		e.Any = &MyErr{}
+	case 3:
+		e.Any = errors.New("plain")
+	case 4:
+		e.Any = Str{"s"}
+	case 5:
+		e.Any = "str"
+	case 6:
+		e.Any = (*MyErr)(nil)
+	case 7:
+		e.Any = r
 	}
 	return e
 }
